@@ -15,6 +15,7 @@ import (
 	"math/rand"
 	"os"
 	"path/filepath"
+	"sort"
 	"sync"
 
 	"com.tuntun.rangers/node/src/common"
@@ -315,25 +316,51 @@ func qualCases(cases []qcase) {
 	if rb > 1<<30 {
 		vutil.Fatalf("reward blocks %d out of the trace's integer range", rb)
 	}
-	for _, c := range cases {
+	ask := func(ci int, again bool) {
+		c := cases[ci]
 		S, W := leToUint64(c.S), leToUint64(c.W)
 		height := uint64(5)
 		if c.Active {
 			height = p025 + rb + 1
 		}
-		for _, v := range c.Values {
+		for vi, v := range c.Values {
 			pi := make([]byte, 80)
 			for i, b := range v {
 				pi[i] = byte(b)
 			}
 			q1 := qualify(pi, height, W, S)
 			q2 := qualify(pi, height, W, S)
-			emit("ValidateProve", map[string]interface{}{"v": v, "S": c.S, "W": c.W, "height": int(height), "p025": p025,
-				"rewardBlocks": int(rb), "maxQN": model.Param.MaxQN, "ok": q1.Ok, "qn": q1.Qn, "ok2": q2.Ok, "qn2": q2.Qn})
-			if q1.Ok {
+			emit("ValidateProve", map[string]interface{}{"kid": fmt.Sprintf("%d-%d", ci, vi), "again": again, "v": v, "S": c.S, "W": c.W,
+				"height": int(height), "p025": p025, "rewardBlocks": int(rb), "maxQN": model.Param.MaxQN,
+				"ok": q1.Ok, "qn": q1.Qn, "ok2": q2.Ok, "qn2": q2.Qn})
+			if again {
+				counts["askedAgain"]++
+			} else if q1.Ok {
 				counts["qualified"]++
 			}
 		}
+	}
+	// first pass: the generator's order, with the two sides of the activation height of equal stake
+	// figures next to each other, the side before the activation first
+	order := make([]int, len(cases))
+	for i := range order {
+		order[i] = i
+	}
+	key := func(i int) string { return fmt.Sprintf("%v|%v", cases[i].S, cases[i].W) }
+	sort.SliceStable(order, func(a, b int) bool {
+		if key(order[a]) != key(order[b]) {
+			return key(order[a]) < key(order[b])
+		}
+		return !cases[order[a]].Active && cases[order[b]].Active
+	})
+	for _, ci := range order {
+		ask(ci, false)
+	}
+	// second pass: every question again after other questions, the stake groups in reverse order and
+	// within a group the side after the activation first: an answer must not depend on what was asked before
+	for k := len(order) - 1; k >= 0; k-- {
+		ci := order[k]
+		ask(ci, true)
 	}
 }
 
@@ -430,6 +457,80 @@ func concurrent(rng *rand.Rand, workers, iterations int) {
 	emit("Concurrent", map[string]interface{}{"goroutines": workers, "iterations": iterations, "mismatches": mm, "verifyFailures": ff})
 }
 
+type vrfMsgPair struct {
+	Rel string `json:"rel"`
+	Len int    `json:"len"`
+	Off int    `json:"off"`
+	M1  []int  `json:"m1"`
+	M2  []int  `json:"m2"`
+}
+
+type vrfMsgCase struct {
+	Pair  vrfMsgPair `json:"pair"`
+	Order string     `json:"order"`
+}
+
+// vrfMsgPairs: two related messages of one key, back to back and in both orders: each proof verifies
+// for its own message only, and proving either message again after unrelated ones gives the same proof.
+func vrfMsgPairs(rng *rand.Rand, cases []vrfMsgCase) {
+	toBytes := func(v []int) []byte {
+		b := make([]byte, len(v))
+		for i, x := range v {
+			b[i] = byte(x)
+		}
+		return b
+	}
+	k := newKey(rng)
+	prove := func(m []byte) []byte {
+		p, err := vrf.VRFGenProve(k.pk, k.sk, m)
+		if err != nil {
+			vutil.Fatalf("prove: %v", err)
+		}
+		return append([]byte(nil), p...)
+	}
+	for _, c := range cases {
+		first, second := toBytes(c.Pair.M1), toBytes(c.Pair.M2)
+		if c.Order == "rev" {
+			first, second = second, first
+		}
+		p1 := prove(first)
+		p2 := prove(second)
+		selfFirst, cross12 := verify(k.pk, p1, first), verify(k.pk, p1, second)
+		selfSecond, cross21 := verify(k.pk, p2, second), verify(k.pk, p2, first)
+		// unrelated messages in between, then both proofs once more
+		for i := 0; i < 3; i++ {
+			o := make([]byte, 40+30*i)
+			rng.Read(o)
+			prove(o)
+		}
+		p2later := prove(second)
+		for i := 0; i < 2; i++ {
+			o := make([]byte, 70)
+			rng.Read(o)
+			prove(o)
+		}
+		p1later := prove(first)
+		ms, mo := c.Pair.M1, c.Pair.M2
+		if c.Order == "rev" {
+			ms, mo = mo, ms
+		}
+		ev := map[string]interface{}{"rel": c.Pair.Rel, "len": c.Pair.Len, "off": c.Pair.Off, "order": c.Order,
+			"selfFirst": selfFirst, "selfSecond": selfSecond, "crossFirstProofSecondMsg": cross12, "crossSecondProofFirstMsg": cross21,
+			"proofsEqual": bytes.Equal(p1, p2), "secondProofSameLater": bytes.Equal(p2, p2later), "firstProofSameLater": bytes.Equal(p1, p1later)}
+		if len(ms) <= 128 {
+			ev["ms"], ev["mo"] = ms, mo
+		} else {
+			// long messages: the differing window is enough for the monitor to see that they differ
+			lo := c.Pair.Off - 2
+			if lo < 0 {
+				lo = 0
+			}
+			ev["ms"], ev["mo"] = ms[lo:c.Pair.Off+1], mo[lo:c.Pair.Off+1]
+		}
+		emit("VrfMsgPair", ev)
+	}
+}
+
 // boundary: the proposer qualifies its proof with the height of the block it builds on
 // (vrfWorker.genProve), the verifiers with the height of the proposed block (verifyBlockVRF). At the
 // one base height where the difficulty adjustment becomes active in between, the two may differ.
@@ -477,6 +578,7 @@ func main() {
 	stride := flag.Int("stride", 1, "mutate every n-th bit")
 	attempts := flag.Int("attempts", 8, "adversarial proving attempts per torsion shift")
 	retain := flag.Int("retain", 2, "rounds of the proof-retention family")
+	msgScript := flag.String("msgscript", "", "JSON file: related message pairs generated by TLC")
 	flag.Parse()
 	if *scratch == "" {
 		vutil.Fatalf("--scratch required")
@@ -490,6 +592,16 @@ func main() {
 		}
 		if err := json.Unmarshal(b, &cases); err != nil {
 			vutil.Fatalf("parse script: %v", err)
+		}
+	}
+	var mcases []vrfMsgCase
+	if *msgScript != "" {
+		b, err := os.ReadFile(*msgScript)
+		if err != nil {
+			vutil.Fatalf("read msgscript: %v", err)
+		}
+		if err := json.Unmarshal(b, &mcases); err != nil {
+			vutil.Fatalf("parse msgscript: %v", err)
 		}
 	}
 	vutil.BootServices(*scratch)
@@ -525,6 +637,9 @@ func main() {
 			torsion(k, m, t8, 2)
 		}
 	}
+	if len(mcases) > 0 {
+		vrfMsgPairs(rng, mcases)
+	}
 	// retained proofs and simultaneous provers, first thing and again after everything else ran
 	retention(rng, *retain)
 	concurrent(rng, 8, 40)
@@ -533,7 +648,7 @@ func main() {
 		boundary(rng, 12)
 	}
 	tr.Close()
-	fmt.Printf("c16: retain=%d concurrent=%d boundary=%d prove=%d transport=%d z0=%d z1=%d z2=%d mutate=%d torsion=%d torsionAccepted=%d shiftedAccepted=%d validate=%d qualified=%d events=%d\n",
-		counts["Retain"], counts["Concurrent"], counts["Boundary"], counts["Prove"], counts["Transport"], counts["z0"], counts["z1"], counts["z2"], counts["Mutate"], counts["Torsion"],
+	fmt.Printf("c16: msgpair=%d askedAgain=%d retain=%d concurrent=%d boundary=%d prove=%d transport=%d z0=%d z1=%d z2=%d mutate=%d torsion=%d torsionAccepted=%d shiftedAccepted=%d validate=%d qualified=%d events=%d\n",
+		counts["VrfMsgPair"], counts["askedAgain"], counts["Retain"], counts["Concurrent"], counts["Boundary"], counts["Prove"], counts["Transport"], counts["z0"], counts["z1"], counts["z2"], counts["Mutate"], counts["Torsion"],
 		counts["torsionAccepted"], counts["shiftedAccepted"], counts["ValidateProve"], counts["qualified"], tr.N)
 }
